@@ -233,7 +233,7 @@ class Agent:
         flags = ov.get("flags", in_flags & 3)
         mac_mode = ov.get("mac", "valid" if flags & 1 else "empty")
         encrypt = ov.get("encrypt", bool(flags & 2))
-        scoped = B.enc_scoped(ctx_engine, b"", pdu)
+        scoped = ov.get("scoped_raw") if ov.get("scoped_raw") is not None else B.enc_scoped(ctx_engine, b"", pdu)
         priv_params = b""
         if encrypt:
             if not (uk and uk.priv_alg):
@@ -242,6 +242,8 @@ class Agent:
             kul = uk.priv_kul(engine_id)
             pt = scoped + ov.get("pad", b"")
             if uk.priv_alg == C.DES:
+                if len(pt) % 8 and ov.get("des_truncate"):
+                    pt = pt[:len(pt) - len(pt) % 8]
                 if len(pt) % 8:
                     pt += bytes(self.rng.randrange(256) for _ in range(8 - len(pt) % 8))
                 data = B.enc_octets(C.usm_des_encrypt(kul, salt, pt))
@@ -375,15 +377,16 @@ def make_user(cfg, engine_id):
     return User(cfg.user, auth_key=ak, priv_key=pk)
 
 
-def make_session(cfg, agent, timeout=1.0, **kw):
-    """Create the real client session (sync or async class) for cfg against agent."""
+def make_session(cfg, agent, timeout=1.0, user=None, **kw):
+    """Create the real client session (sync or async class) for cfg against agent.
+    user: an existing gufo.snmp User object to reuse (one User shared by several sessions)."""
     from gufo.snmp import SnmpVersion
     if cfg.client == "sync":
         from gufo.snmp.sync_client import SnmpSession
     else:
         from gufo.snmp.async_client import SnmpSession
     if cfg.version == "v3":
-        user = make_user(cfg, agent.engine_id)
+        user = user or make_user(cfg, agent.engine_id)
         return SnmpSession("127.0.0.1", port=agent.port, user=user, version=SnmpVersion.v3,
                            engine_id=agent.engine_id if cfg.engine_given else (b"" if cfg.empty_engine else None), timeout=timeout, **kw)
     ver = SnmpVersion.v1 if cfg.version == "v1" else SnmpVersion.v2c
